@@ -281,6 +281,20 @@ static LinkedList *bufr_expand_desc( int desc, int flags, BUFR_Tables *tbls, int
       }
 
 /*
+ * a sequence that refers to itself cannot be expanded (the table loaders report such 
+ * tables but keep them)
+ */
+   if (bufr_tabled_is_circular( tbls, desc ))
+      {
+      char errmsg[256];
+
+      if (errflg) *errflg = 1;
+      sprintf( errmsg, _("Error: Table D descriptor %d is in a circular loop\n"), desc );
+      bufr_print_debug( errmsg );
+      return NULL;
+      }
+
+/*
  * a replication inside a Table D sequence must be closed within the sequence: 
  * once the sequence is spliced into a template an open span would swallow 
  * whatever happens to follow it
